@@ -240,6 +240,9 @@ let rec fmt_vnode (Node (name, props, srcs)) : string =
              dot_cps k ^ ":" ^ String.concat "|" (List.map dot_cps (List.concat (List.map snd (List.filter (fun (k', _) -> k' = k) props))))) keys in
   Printf.sprintf "N(%s;%s;%s)" (dot_cps name) (String.concat "," ps) (String.concat "/" (List.map fmt_vpipe srcs))
 and fmt_vpipe (p : node list) : string = String.concat "+" (List.map fmt_vnode p)
+let do_vpl_render (a : string list) : string =
+  let arg = match a with [x] -> x | [] -> "-" | _ -> failwith "vpl args" in
+  match parse_vpl vpl_empty_variant (cps_of arg) with Some p -> fmt_cps (render_pipe p) | None -> "err"
 let do_vpl (a : string list) : string =
   let arg = match a with [x] -> x | [] -> "-" | _ -> failwith "vpl args" in
   match parse_vpl vpl_empty_variant (cps_of arg) with Some p -> "ok:" ^ fmt_vpipe p | None -> "err"
@@ -382,6 +385,7 @@ let dispatch (op : string) (args : string list) : string =
   | "recomp" | "optc" -> do_recomp op args
   | "tilepath" | "static" -> do_http op args
   | "vpl" -> do_vpl args
+  | "vpl.render" -> do_vpl_render args
   | "csv" -> do_csv args
   | "tileid" | "idcoord" | "pmdir.ser" | "pmdir.de" | "pmdir.find" | "vtblocks" -> do_fmt op args
   | "c12.vt" | "c12.pm" | "c12.vthdr" | "c12.pmhdr" -> do_c12 op args
